@@ -25,7 +25,7 @@ SERVERS = [("h", "default"), ("h", 8080), ("h", 80), ("h", 443), ("10.0.0.1", 80
 HOSTS = [None, "x.org", "x.org:81", "[::1]:81"]
 ROOTS = ["", "/r", "/ré"]
 PATHS = ["/", "/a b", "/é", "/a?b", "/a#b", "", "/a/b.c", "/r/users", "/r", "/ré/x"]
-QUERIES = [b"", b"a=1", b"a=%20&b"]
+QUERIES = [b"", b"a=1", b"a=%20&b", "name=café&q=日本".encode("utf-8"), b"l=\xe9"]  # the last two: raw UTF-8 and a raw Latin-1 byte, unescaped
 
 
 def split_host(h):
@@ -62,7 +62,10 @@ def reconstruct(r, scheme, server, host, root, path, query):
     else:
         want_host, want_port = sname, (None if port == DEFAULT[scheme] else port)
     want_path = root + path
-    want_query = query.decode()
+    try:
+        want_query = query.decode()
+    except UnicodeDecodeError:
+        want_query = query.decode("latin-1")  # bytes that are not UTF-8 can only be shown one by one
     for iface, u in urls.items():
         r.count("evaluations")
         if ":" in want_host or want_port is not None:
@@ -89,7 +92,7 @@ def reconstruct_noserver(r):
     """ASGI scopes that carry no usable server address (key absent, None, or a unix-socket style (name, None) pair): the Host
     header decides when there is one; with neither, only path and query are known."""
     from baize.datastructures import URL
-    for scheme, host, root, path, query, shape in itertools.product(SCHEMES, HOSTS, ROOTS, PATHS[:4], QUERIES, ("absent", "none", "unix", "name-none-port")):
+    for scheme, host, root, path, query, shape in itertools.product(SCHEMES, HOSTS, ROOTS, PATHS[:4], QUERIES[:3], ("absent", "none", "unix", "name-none-port")):
         req = SV.AReq(path=path, root=root, query=query, headers=[("Host", host)] if host is not None else [], scheme=scheme)
         sc = SV.to_scope(req)
         if scheme in ("ws", "wss"):
@@ -259,7 +262,13 @@ def query_helpers(r):
         base = URL("http://h/p" + ("?" + q if q else "") + "#f")
         before = parse_qsl(q, keep_blank_values=True)
         cases = []
-        for kw in ({"a": "9"}, {"z": "1"}, {"a": 5, "b": ""}, {}):
+        own = []  # setting a key to a value it already has (its last, its first): still "set" - one pair left, at the first position
+        for k in dict(before):
+            vals = [v for kk, v in before if kk == k]
+            own += [{k: vals[-1]}, {k: vals[0]}]
+        if len(dict(before)) >= 2:
+            own.append({k: [v for kk, v in before if kk == k][-1] for k in dict(before)})
+        for kw in [{"a": "9"}, {"z": "1"}, {"a": 5, "b": ""}, {}] + own:
             exp = list(before)
             for k, v in kw.items():
                 v = str(v)
